@@ -34,7 +34,7 @@ func invalidates(c *Ctx) func(ssa.Instruction) bool {
 	cslot := P.Named("cache", "Cslot")
 	look := P.Func("cache.(*Cache).LookupSlot")
 	// a store of nil into the Obj of the slot looked up for ip.Inum, ip ranging over op.inodes
-	dropStore := func(in ssa.Instruction) (*ssa.Next, bool) {
+	dropStoreS := func(in ssa.Instruction, sub Subst) (*ssa.Next, bool) {
 		st, ok := in.(*ssa.Store)
 		if !ok {
 			return nil, false
@@ -52,7 +52,7 @@ func invalidates(c *Ctx) func(ssa.Instruction) bool {
 		if !ok || look == nil || lc.Call.StaticCallee() != look {
 			return nil, false
 		}
-		nm, f2, base, _ := loadedField(argN(lc, 0))
+		nm, f2, base, _ := loadedFieldS(argN(lc, 0), sub)
 		if nm != V.Inode || f2 != "Inum" {
 			return nil, false
 		}
@@ -68,29 +68,44 @@ func invalidates(c *Ctx) func(ssa.Instruction) bool {
 		return nil, false
 	}
 	// dropsAll: f clears the cached object of every inode recorded in op.inodes, on every path
+	// (the store may sit in a helper that is handed the inode's number)
 	dropsAll := func(f *ssa.Function) bool {
 		if !IsRepoFunc(f) || f.Blocks == nil {
 			return false
 		}
-		for _, b := range f.Blocks {
-			for _, in := range b.Instrs {
-				nx, ok := dropStore(in)
-				if !ok {
-					continue
-				}
-				h := nx.Block()
-				every, nback := true, 0
-				for _, p := range h.Preds {
-					if h.Dominates(p) {
-						nback++
-						if !b.Dominates(p) {
-							every = false // an iteration can skip the store
+		for _, sc := range scopesOf(f) {
+			for _, b := range sc.Fn.Blocks {
+				for _, in := range b.Instrs {
+					nx, ok := dropStoreS(in, sc.S)
+					if !ok || nx.Parent() != f {
+						continue
+					}
+					// where the store happens as seen from f: the store itself, or the call of the helper
+					at := b
+					if sc.Via != nil {
+						if sc.Via.Parent() != f {
+							continue
+						}
+						thisIn := in
+						if !MustAfter(sc.Fn, func(x ssa.Instruction) bool { return x == thisIn }, nil)(sc.Fn.Blocks[0].Instrs[0]) {
+							continue
+						}
+						at = sc.Via.Block()
+					}
+					h := nx.Block()
+					every, nback := true, 0
+					for _, p := range h.Preds {
+						if h.Dominates(p) {
+							nback++
+							if !at.Dominates(p) {
+								every = false // an iteration can skip the store
+							}
 						}
 					}
-				}
-				isNext := func(x ssa.Instruction) bool { return x == ssa.Instruction(nx) }
-				if every && nback > 0 && MustAfter(f, isNext, nil)(f.Blocks[0].Instrs[0]) {
-					return true
+					isNext := func(x ssa.Instruction) bool { return x == ssa.Instruction(nx) }
+					if every && nback > 0 && MustAfter(f, isNext, nil)(f.Blocks[0].Instrs[0]) {
+						return true
+					}
 				}
 			}
 		}
@@ -162,8 +177,8 @@ func ruleA2(c *Ctx, id string) {
 			}
 		}
 		through := func(from, to *ssa.BasicBlock) bool { return invBlocks[to] }
-		zeroEdge := func(method string) func(from, to *ssa.BasicBlock) bool {
-			return condEdge(f, func(cd Cond) (bool, bool) {
+		zeroEdgeIn := func(g *ssa.Function, method string) func(from, to *ssa.BasicBlock) bool {
+			return condEdge(g, func(cd Cond) (bool, bool) {
 				if cd.X == nil || cd.Y == nil {
 					return false, false
 				}
@@ -183,6 +198,41 @@ func ruleA2(c *Ctx, id string) {
 				}
 				return false, false
 			})
+		}
+		// ... or the false edge of a private predicate all of whose 'false' answers lie behind that zero edge
+		zeroEdge := func(method string) func(from, to *ssa.BasicBlock) bool {
+			direct := zeroEdgeIn(f, method)
+			viaPred := condEdge(f, func(cd Cond) (bool, bool) {
+				if cd.Op != token.ILLEGAL {
+					return false, false
+				}
+				pc, ok := cd.X.(*ssa.Call)
+				if !ok {
+					return false, false
+				}
+				h := pc.Call.StaticCallee()
+				if h == nil || !isPrivateHelper(h) || h.Blocks == nil {
+					return false, false
+				}
+				ze := zeroEdgeIn(h, method)
+				n := 0
+				for _, hb := range h.Blocks {
+					r, isR := hb.Instrs[len(hb.Instrs)-1].(*ssa.Return)
+					if !isR || len(r.Results) != 1 {
+						continue
+					}
+					if bv, isb := constBool(r.Results[0]); isb && bv {
+						continue
+					}
+					// a return that may answer false
+					n++
+					if !everyPathTakes(h, hb, ze) {
+						return false, false
+					}
+				}
+				return n > 0, false
+			})
+			return func(from, to *ssa.BasicBlock) bool { return direct(from, to) || viaPred(from, to) }
 		}
 		okDirty := everyPathTakes(f, rel.Block(), through, zeroEdge("NDirty"))
 		okAlloc := everyPathTakes(f, rel.Block(), through, zeroEdge("NAllocated"))
@@ -291,10 +341,10 @@ func ruleA4(c *Ctx, id string) {
 func ruleRefused(c *Ctx, id string) {
 	V, P, R := c.V, c.P, c.R
 	R.Rule(id, "a commit the journal refuses is undone like an abort: on the false edge of jrnl.CommitWait in the commit funnel the cached inodes are dropped before the locks are released, AllocTxn.PostAbort runs, and PostCommit does not", 3)
-	f := V.commitWait
-	if f == nil || V.JrnlCommitWait == nil {
+	if V.commitWait == nil || V.JrnlCommitWait == nil {
 		return
 	}
+	f := funnelBody(c, V.commitWait, funcIs(V.JrnlCommitWait)).Fn
 	R.Analysed[FuncName(f)] = true
 	inv := invalidates(c)
 	pa := P.NewAlways(callTo(V.PostAbort))
